@@ -631,6 +631,11 @@ UNITS = [
     U(id="pfx_remove", props=["C02", "C09", "C16", "C18"], file="units/pfx_ops.c", entry="h_pfx_remove", defines=["H_ENTRY=h_pfx_remove"], enforce=["pfx_table_remove"],
       replace=["trie_lookup_exact", "pfx_table_find_elem", "pfx_table_del_elem", "trie_remove"],
       kind="complete", need_classes=["postcondition", "precondition"], native=None, stubs=["pthread_rwlock_*", "lrtr_free"]),
+    U(id="src_remove", props=["C02", "C09", "C16"], file="units/src_remove.c", entry="h_src_remove", defines=["STUB_IP"], enforce=[], plain=True,
+      checked_by_assertions=["pfx_table_src_remove", "pfx_table_remove_id", "trie_remove", "pfx_table_del_elem"], need_classes=["assertion"],
+      kind="bounded: every trie shape of 2 (quick) / 3 (thorough) levels, 1..2 records per node, two sources", tier_defines={"quick": {"SR_DEPTH": 2}, "thorough": {"SR_DEPTH": 3}},
+      bound=9, unwindset={"trie_remove": {"quick": 3, "thorough": 4}, "pfx_table_remove_id": {"quick": 3, "thorough": 4}}, native=None,
+      timeout={"quick": 1800, "thorough": 7200}, allow_undefined=True, cbmc_flags=["--sat-solver", "cadical"], stubs=["lrtr_realloc", "lrtr_free", "lrtr_malloc", "pthread_rwlock_*", "lrtr_ip_addr_*"]),
     # ------------------------------------------------------------------ C20
     U(id="c20_state_names", props=["C20"], file="units/c20_state_names.c", entry="h_c20_state",
       enforce=["rtr_state_to_str"], kind="complete", bound=70,
